@@ -128,7 +128,16 @@ inline cocls::async<void> contender_coro(Ctx &ctx, int id) {
         cs_body(ctx, rq, id, x.cs_yields);
         switch (x.rel) {
             case 0: own.release(); break;
-            case 1: own = cocls::mutex::ownership(); break;
+            case 1:
+                if (k & 1) {
+                    // overwritten by move assignment from a NAMED (empty) ownership: the mutex is released at the assignment, the source stays empty
+                    cocls::mutex::ownership named;
+                    own = std::move(named);
+                    HZ_CHECK(!named, "after 'own = std::move(named)' the source holds a mutex (the overwritten ownership was parked in it instead of being released)");
+                    HZ_CHECK(!own, "after assigning an empty ownership the target still owns the mutex");
+                }
+                else own = cocls::mutex::ownership();
+                break;
             case 2: { auto sp = own.release(); cs.running = false; co_await sp; cs.running = true; } break;
             default: helper_release(std::move(own)); break;
         }
@@ -172,7 +181,16 @@ inline void contender_thread(Ctx &ctx, int id) {
         cs_body(ctx, rq, id, x.cs_yields);
         switch (x.rel) {
             case 0: own.release(); break;
-            case 1: own = cocls::mutex::ownership(); break;
+            case 1:
+                if (k & 1) {
+                    // overwritten by move assignment from a NAMED (empty) ownership: the mutex is released at the assignment, the source stays empty
+                    cocls::mutex::ownership named;
+                    own = std::move(named);
+                    HZ_CHECK(!named, "after 'own = std::move(named)' the source holds a mutex (the overwritten ownership was parked in it instead of being released)");
+                    HZ_CHECK(!own, "after assigning an empty ownership the target still owns the mutex");
+                }
+                else own = cocls::mutex::ownership();
+                break;
             case 2: { auto sp = own.release(); hz::upoint(); sp.clear(); } break;
             default: helper_release(std::move(own)); break;
         }
